@@ -1,10 +1,10 @@
 ---- MODULE MC_SessRefresh ----
-(* Family "refresh": SetObj v1 ; NewEmpty ; CopyTo ; SetObj v2 ; CopyTo ; CopyTo (thorough: ; SetObj v3 ; CopyTo).  Serves C09. *)
+(* Family "refresh": SetObj v1 ; NewEmpty ; CopyTo ; SetObj v2 ; CopyTo ; CopyTo (thorough: ; SetPrior v3 ; CopyTo ; CopyTo, v3 being the zero value or a value with everything set).  Serves C09. *)
 EXTENDS Shapes, TLC, Json
 CONSTANTS MCDeep, MCLong
 VARIABLES sh, M, Mi, obj, tf, dg, pn, pc, hist, viol, aux
 MCShapes == RefreshShapes
-MCScript == IF MCLong THEN <<"SetObj", "NewEmpty", "CopyTo", "SetObj", "CopyTo", "CopyTo", "SetObj", "CopyTo">> ELSE <<"SetObj", "NewEmpty", "CopyTo", "SetObj", "CopyTo", "CopyTo">>
+MCScript == IF MCLong THEN <<"SetObj", "NewEmpty", "CopyTo", "SetObj", "CopyTo", "CopyTo", "SetPrior", "CopyTo", "CopyTo">> ELSE <<"SetObj", "NewEmpty", "CopyTo", "SetObj", "CopyTo", "CopyTo">>
 MCProps == {"C09"}
 ASSUME PrintT("SHAPES " \o ToJson(MCShapes))
 INSTANCE Session WITH Shapes <- MCShapes, Script <- MCScript, Deep <- MCDeep, Props <- MCProps, ObjMode <- "all", RawMode <- "plans"
